@@ -816,6 +816,46 @@ def main_c29(run):
                 nval += 1
                 run.cov["traces_validated_against_impl"] += 1
     run.cov["values_roundtripped"] = nval
+    # model containers of every class that already exist but hold children that are not models yet: promotion goes
+    # through them (every node of the result is a model, equal to promoting the plain container), and a cycle
+    # through them is refused like any other
+    def pure(m):
+        return isinstance(m, M.Object) and (not isinstance(m, M.Sequence) or all(pure(c) for c in m))
+    raw_children = [[1, "a"], [(2, 3)], [[4], None], [{"k": 1}], [1.5, {2}], [M.Integer(1), [2]]]
+    classes = [M.List, M.Tuple, M.Set, M.Expression, M.Dict]
+    for cls in classes:
+        for ch in raw_children:
+            kids = ch if cls is not M.Dict or len(ch) % 2 == 0 else ch + [0]
+            v = cls(kids)
+            run.case(("model-container", cls.__name__, repr(ch)))
+            try:
+                m = hy.as_model(v)
+            except Exception as e:
+                run.violation("container:" + repr(v)[:150], f"as_model({cls.__name__} of {kids!r}) raised {type(e).__name__}: {e}", {})
+                continue
+            want = cls(hy.as_model(list(kids)))
+            if not pure(m) or type(m) is not cls or model_diff(want, m):
+                run.violation("container:" + repr(v)[:150], f"as_model of a {cls.__name__} holding {kids!r} is not a tree of models equal to "
+                              f"the promoted children: {m!r}", {})
+            else:
+                run.cov["traces_validated_against_impl"] += 1
+            for wrap in (lambda x: [x], lambda x: (1, x), lambda x: M.List([x]), lambda x: {"k": x}):
+                try:
+                    m2 = hy.as_model(wrap(v))
+                    if not pure(m2):
+                        run.violation("container:" + repr(v)[:150], f"as_model of a value holding {v!r} left a non-model inside: {m2!r}", {})
+                except Exception as e:
+                    run.violation("container:" + repr(v)[:150], f"as_model of a value holding {v!r} raised {type(e).__name__}: {e}", {})
+        lst = []
+        lst.append(cls([lst, lst] if cls is M.Dict else [lst]))
+        run.case(("model-container-cycle", cls.__name__))
+        try:
+            hy.as_model(lst)
+            run.violation("container-cycle:" + cls.__name__, f"a list that contains itself through a {cls.__name__} model was promoted", {})
+        except HyWrapperError:
+            run.cov["traces_validated_against_impl"] += 1
+        except RecursionError:
+            run.violation("container-cycle:" + cls.__name__, f"a cycle through a {cls.__name__} model recursed without bound", {})
     # an error is followed by normal service
     a = []
     a.append(a)
@@ -833,7 +873,8 @@ def main_c29(run):
                       "HyAsModel: every value graph on 3 values (atoms, containers that may contain themselves, models, "
                       "unpromotable objects) x every history of 2 promotions explored by TLC (SeenEmptyBetweenCalls, "
                       "OutcomeDependsOnValueOnly); a sample of histories replayed on real lists/dicts/models/functions "
-                      "(outcome, _seen emptiness, idempotence) and random nested values round-tripped through hy.eval",
+                      "(outcome, _seen emptiness, idempotence), random nested values round-tripped through hy.eval, and existing model "
+                      "containers of every class holding unpromoted children or closing a cycle",
                       extra={"exhaustive": True})
 
 
